@@ -478,7 +478,7 @@ theorem NP_accepted (c : Chain) (b : Block) (t : Node) (x : Nat) : NP c (accepte
 theorem deliver_on_tip_eq (c : Chain) (b : Block) (t : Node) (hb : getNode c b.id = none)
     (ht : getNode c c.tip = some t) (hpar : b.parent = c.tip) :
     deliver c b = commitBlock (accepted c b t) b (t.height + 1) := by
-  unfold deliver accepted
+  unfold deliver deliverAt accepted
   simp only [hb, Option.isSome_none, Bool.false_eq_true, if_false, hpar, ht, bne_self_eq_false, Bool.false_and]
 
 
